@@ -267,7 +267,7 @@ def property_attributes_ob(v):
 
 @obligation("C01", "cardinalities", shards=3, budget={"quick": 300, "thorough": 900},
             expect=["loaded"],
-            bounds="the three cardinality kinds (one per shard): every normal-form pair with members None | 0..3 (quick) / 0..11 (thorough)")
+            bounds="the three cardinality kinds (one per shard): every normal-form pair with members None | 0..11 (quick) / 0..25 (thorough)")
 def cardinalities_ob(v):
     """Every cardinality shape (max only, min only, min<max, min=max) survives XML save and load."""
     import odml
